@@ -15,11 +15,19 @@ _modules: dict = {}
 class ModuleSrc:
     def __init__(self, relpath):
         self.relpath = relpath
-        self.path = os.path.join(REPO, relpath)
+        # "verif:<path>" names a module of the framework itself (self-test programs for the encoding,
+        # spec/xcheck_cases.py) -- never code that is claimed as verified
+        if relpath.startswith("verif:"):
+            root = os.path.dirname(os.path.dirname(os.path.abspath(__file__)))
+            self.path = os.path.join(root, relpath[len("verif:"):])
+        else:
+            self.path = os.path.join(REPO, relpath)
         with open(self.path, encoding="utf-8") as f:
             self.text = f.read()
         self.tree = ast.parse(self.text, filename=self.path)
         self.modname = relpath[:-3].replace("/", ".")
+        if relpath.startswith("verif:"):
+            self.modname = relpath[len("verif:"):-3].replace("/", ".")
         if self.modname.endswith(".__init__"):
             self.modname = self.modname[: -len(".__init__")]
         self._real = None
@@ -132,7 +140,7 @@ def class_has_property(mod: ModuleSrc, cls_qual, name):
 
 def resolve(key: str) -> FnRef:
     """`path/to/file.py:Qual.name[.setter]` or nested `f.<inner>` -> FnRef."""
-    rel, qual = key.split(":")
+    rel, qual = key.rsplit(":", 1)
     mod = module(rel)
     role = "function"
     if qual.endswith(".setter"):
